@@ -59,7 +59,7 @@ def domain_lengths_agree(iw):
     return None
 
 
-def run_checked(iw, lines, res, prop, check_domains=False):
+def run_checked(iw, lines, res, prop, check_domains=False, prefix=()):
     """run a history on the implementation; after every op check the invariants and 'refused => unchanged'.
     Returns outputs (list of str)."""
     outs = []
@@ -74,16 +74,16 @@ def run_checked(iw, lines, res, prop, check_domains=False):
         if watch and o.startswith('err'):
             after = registry_snapshot(iw)
             if after != before:
-                res.violation('refused-request-changed-registry:' + cmd, {'history': lines[:k + 1]}, o + ' and the registries changed',
+                res.violation('refused-request-changed-registry:' + cmd, {'history': list(prefix) + lines[:k + 1]}, o + ' and the registries changed',
                               'a refused request leaves every live object and every name binding unchanged')
         bad = check_invariants(iw)
         if bad:
-            res.violation('singleton-invariant:' + bad.split(' (')[0][:60], {'history': lines[:k + 1]}, bad,
+            res.violation('singleton-invariant:' + bad.split(' (')[0][:60], {'history': list(prefix) + lines[:k + 1]}, bad,
                           'one live object per name and per canonical form; both keys lead to it')
         if check_domains:
             bad = domain_lengths_agree(iw)
             if bad:
-                res.violation('complement-length-mismatch', {'history': lines[:k + 1]}, bad, 'a domain and its complement have equal length')
+                res.violation('complement-length-mismatch', {'history': list(prefix) + lines[:k + 1]}, bad, 'a domain and its complement have equal length')
     return outs
 
 
